@@ -13,7 +13,7 @@ for fn in sorted(os.listdir(d)):
         ents = json.load(open(os.path.join(d, fn)))
         props.add(fn[:-5])
         staged.extend(ents)
-out = [e for e in main if e.get("status") == "fixed" or e.get("property") not in props]
+out = [e for e in main if e.get("status") == "fixed"]   # staging files are the single source of known entries
 ids = set(e["id"] for e in out)
 for e in staged:
     if e["id"] not in ids:
